@@ -606,7 +606,19 @@ class C06(Property):
     id = "C06"
     title = "Deriving or instantiating a schema never alters the schema it came from"
     proof_module = "Proofs.C06"
-    theorems = []
+    theorems = ["Flatland.C06.Proofs." + t for t in (
+        "frame", "frame_observe", "frame_of_pre", "step_pre", "instance_local",
+        "schema_fields", "addUnseen_spec", "addAndOverwrite_spec",
+        "WF_of_wfB", "C06_full_fails",
+    )]
+    level_text = "proof"
+    level_note = ("frame (every non-lazy-preparation step leaves every observable attribute and property of every "
+                  "pre-existing class unchanged), instance_local and schema_fields (Nodup + overlay characterisation) are "
+                  "proved for all stores/inputs of the model; the unrestricted frame statement C06_Full is false because of "
+                  "the lazy preparation of compound types (negation witness); well-formedness of reachable stores, the frame "
+                  "condition for lazy preparation (all attributes but field_schema) and history independence are checked by "
+                  "the runner/oracle on every generated chain, not proved")
+    technique = "Lean 4 model (class store + heap of list objects) + frame theorem by store extension; differential testing"
     trusted_base = [
         "Python's class machinery (type(), attribute lookup along a single-inheritance MRO, instance __dict__) is the "
         "modelled boundary: the model is an explicit class store with own-attribute dictionaries and a parent pointer",
@@ -624,8 +636,8 @@ class C06(Property):
             "with 0-3 bases, explicit field_schema lists and attribute declarations over 4 overlapping names; non-trivial = "
             ">= 3 successful derivations and one instantiation, or a schema with a multi-base class; distinct = distinct "
             "canonical case JSON")
-    quick_n = 4000
-    thorough_n = 60000
+    quick_n = 40000
+    thorough_n = 400000
     case_timeout = 20
 
     def corpus(self):
